@@ -356,8 +356,9 @@ func c03Run(r *core.Run) {
 	nowWorld := r.Index%3 == 2
 	cfg := world.Cfg{Processor: 1, AuthLen: 0}
 	if nowWorld {
-		cfg.Epoch, cfg.NetLat = time.Now().UTC().Truncate(time.Hour), -1
+		cfg.Epoch, cfg.NetLat = wallNow, -1
 		r.Probe("world_at_wall_clock_now")
+		r.WallClockWorld = true
 	}
 	w := world.NewWorld(t, cfg)
 	B := world.NewPKI(t, "B", w.Epoch, w.A)
